@@ -333,6 +333,10 @@ def check_yy(R, env, st, pieces):
     if ident is None:
         if not (D.aff_equiv(D.aff_of(v), D.aff_of(Y), st=st) or D.aff_equiv(D.aff_of(v), D.aff_scale(D.aff_of(Y), -1), st=st)):
             raise Mismatch('the number is neither the year nor read from its last two digits')
+        # the whole year is printed: only when its decimal text has at most two characters
+        lens = getattr(I, 'int_text_len', {}).get(Y, [])
+        if not lens or min(D.get_iv(st, lv)[1] for lv in lens) > 2:
+            raise Mismatch('the year is printed as it is on a path where its text can have more than two characters (yy shows the last two digits)')
         return
     so = I.slice_of.get(ident)
     if so is None:
